@@ -76,6 +76,21 @@ Theorem C20_pass_spellings : forall V,
 Proof. exact pass_spellings. Qed.
 Print Assumptions C20_pass_spellings.
 
+(* the complement: a verb whose lower() is neither "pass" nor "user" is not a login attempt for the
+   server -- state untouched, 502, logged as the unknown command it is -- whatever casefold / upper /
+   compatibility normalisation would make of it (the dispatch key is cmd.lower(): C20_pass_facts) *)
+Theorem C20_other_verbs_are_not_logins : forall censor T users st V p w,
+  nospace V -> allspace w -> lower V <> VERB_PASS -> lower V <> VERB_USER ->
+  server_step censor T users st (V ++ SP :: p ++ w)
+  = (st, [server_parse_command_log censor (V ++ SP :: p ++ w);
+          reply_log (reply_line (unknown_verb_reply (lower V)))]).
+Proof. exact other_verbs_are_not_logins. Qed.
+Print Assumptions C20_other_verbs_are_not_logins.
+
+Example C20_sharp_s_is_not_pass :
+  lower [80; 65; 223] <> VERB_PASS /\ lower [112; 97; 383; 115] <> VERB_PASS.
+Proof. exact sharp_s_is_not_pass. Qed.
+
 (* stream level: what readline() + parse_command log for "V p\r\n" followed by any stream k *)
 Theorem C20_server_stream_hides_password : forall V p1 p2 k,
   lower V = VERB_PASS -> lf_free p1 -> lf_free p2 ->
